@@ -68,6 +68,7 @@ func verifStartCtl() {
 	mux.HandleFunc("/verif/state", verifState)
 	mux.HandleFunc("/verif/fs/arm", verifFsArm)
 	mux.HandleFunc("/verif/fs/count", verifFsCount)
+	mux.HandleFunc("/verif/fs/armpat", verifFsArmPattern)
 	mux.HandleFunc("/verif/points", verifPoints)
 	go func() { _ = http.Serve(ln, mux) }()
 	if os.Getenv("VERIF_BG_OFF") != "" {
@@ -290,6 +291,12 @@ func verifFsArm(w http.ResponseWriter, r *http.Request) {
 	torn, _ := strconv.ParseInt(r.URL.Query().Get("torn"), 10, 64)
 	fileops.VerifArm(k, torn)
 	verifReply(w, map[string]any{"armed": k, "torn": torn, "count": fileops.VerifCount()})
+}
+
+func verifFsArmPattern(w http.ResponseWriter, r *http.Request) {
+	n, _ := strconv.ParseInt(r.URL.Query().Get("n"), 10, 64)
+	fileops.VerifArmPattern(r.URL.Query().Get("kind"), r.URL.Query().Get("path"), n)
+	verifReply(w, map[string]any{"armed_pattern": n, "count": fileops.VerifCount()})
 }
 
 func verifFsCount(w http.ResponseWriter, r *http.Request) {
